@@ -41,6 +41,8 @@ type anyOpts struct {
 	ProbSet  bool
 	KeepLog  bool
 	Pool     bool
+	// Doorkeeper turns the bloom-filter doorkeeper on
+	Doorkeeper bool
 }
 
 var anyKinds = []string{"plain", "loading", "hybrid", "hybrid-loading"}
@@ -56,6 +58,9 @@ func newAnyCache(kind string, o anyOpts) (*anyCache, error) {
 	}
 	if o.Pool {
 		b = b.UseEntryPool(true)
+	}
+	if o.Doorkeeper {
+		b = b.Doorkeeper(true)
 	}
 	loader := o.Loader
 	if loader == nil {
